@@ -1,6 +1,7 @@
 import SafeNet.Driver.Util
 import SafeNet.Base.Sha256
 import SafeNet.Model.Store
+import SafeNet.Model.StoreStart
 /-!
 Line protocol of the record-store model (`drv_store`), one output line per op line:
 
@@ -17,6 +18,12 @@ remove <k> | setrange <r> | cleanup | payment                                   
 run <id>                                                                              -> ran | ran add | illegal-choice | no-task
 deliver <id>                                                                          -> ok | illegal-choice | no-note
 crash [<id>:<n> ...]           stop (tearing these writes), reopen                    -> ok | illegal-choice
+start <netid>                  stop if running; check_and_wipe_storage_dir_if_necessary for this network id, then
+                               open the store                                          -> started v=<version file>
+start <netid> interrupt [<b>]  the same start, killed at the first write to a regular file that would take it beyond
+                               <b> bytes (default 0); the node stays down             -> killed v=.. | exited v=..
+vfile                          content of <root>/network_key_version                  -> absent | empty | <text>
+                               (a node that is down answers `down` to everything but start, vfile, ls, key, len, init)
 get <k>                        -> none | some <v> | part <v> <n>
 contains <k>                   -> true | false
 addrs | ls | dist | far | cache | pending | metrics <k>                               dumps
@@ -29,6 +36,12 @@ structure DSt where
   dists : List (Nat × Nat)
   cfg : Cfg
   st : St
+  /-- `<root>/network_key_version` (`none`: absent) -/
+  vfile : Option Text := none
+  /-- the node is running (an interrupted start leaves it down) -/
+  up : Bool := true
+  /-- the store sits inside a real node `SwarmDriver` (`initcmd`) -/
+  cmd : Bool := false
 
 def distOf (dists : List (Nat × Nat)) (k : Nat) : Nat := (lookup k dists).getD 0
 
@@ -90,7 +103,31 @@ def apply (d : DSt) (op : Op) : DSt × String :=
   let r := SafeNet.Store.step d.cfg (distOf d.dists) d.st op
   ({ d with st := r.1 }, outStr r.2)
 
-def step (d : DSt) (ws : List String) : DSt × String :=
+def textStr (t : Text) : String := if t.isEmpty then "empty" else String.ofList (t.map Char.ofNat)
+
+def vfileStr : Option Text → String
+  | none => "absent"
+  | some t => textStr t
+
+def isWriteEff : FsEff → Bool
+  | .write _ => true
+  | _ => false
+
+/-- `start <netid> interrupt <b>`: the child process runs the start-up step with RLIMIT_FSIZE = b, so it is killed at
+the first write to a regular file that would take the file beyond b bytes: every effect before the write of the version
+file is complete, b bytes of that write reach the file. Without such a write (or with b bytes enough for it) the child
+runs the whole step and exits; the store is not opened. -/
+def startInterrupted (d : DSt) (id b : Nat) : DSt × String :=
+  let cur := idText id
+  let effs := startupEffects d.vfile cur
+  let idx := effs.findIdx isWriteEff
+  let i : Intr := ⟨idx, b, []⟩
+  let r := nstep d.cfg (distOf d.dists) ⟨d.up, d.vfile, d.st⟩ (.start cur (some i))
+  let killed := idx < effs.length && b < cur.length
+  ({ d with up := r.1.up, vfile := r.1.vfile, st := r.1.st },
+    (if killed then "killed" else "exited") ++ " v=" ++ vfileStr r.1.vfile)
+
+def stepUp (d : DSt) (ws : List String) : DSt × String :=
   match ws with
   | ["init", m, c, _peer] =>
     match m.toNat?, c.toNat? with
@@ -116,7 +153,8 @@ def step (d : DSt) (ws : List String) : DSt × String :=
     match m.toNat?, c.toNat? with
     | some m, some c =>
       let cfg := Cfg.shipped m c
-      ({ dists := [], cfg := cfg, st := SafeNet.Store.init cfg (fun _ => 0) }, "ok")
+      -- `build_node` has run the start-up check with the default network id (1): the version file names it
+      ({ dists := [], cfg := cfg, st := SafeNet.Store.init cfg (fun _ => 0), vfile := some (idText 1), cmd := true }, "ok")
     | _, _ => (d, "bad-op")
   | ["cput", k, v] =>
     match k.toNat?, v.toNat? with
@@ -193,6 +231,36 @@ def step (d : DSt) (ws : List String) : DSt × String :=
     | none => (d, "bad-op")
   | _ => (d, "bad-op")
 
+def step (d : DSt) (ws : List String) : DSt × String :=
+  match ws with
+  | ["vfile"] => (d, vfileStr d.vfile)
+  | ["start", n] =>
+    if d.cmd then (d, "bad-op") else
+    match n.toNat? with
+    | some id =>
+      let r := nstep d.cfg (distOf d.dists) ⟨d.up, d.vfile, d.st⟩ (.start (idText id) none)
+      ({ d with up := r.1.up, vfile := r.1.vfile, st := r.1.st }, "started v=" ++ vfileStr r.1.vfile)
+    | none => (d, "bad-op")
+  | ["start", n, "interrupt"] =>
+    if d.cmd then (d, "bad-op") else
+    match n.toNat? with
+    | some id => startInterrupted d id 0
+    | none => (d, "bad-op")
+  | ["start", n, "interrupt", b] =>
+    if d.cmd then (d, "bad-op") else
+    match n.toNat?, b.toNat? with
+    | some id, some b => startInterrupted d id b
+    | _, _ => (d, "bad-op")
+  | _ =>
+    if d.up then stepUp d ws
+    else match ws with
+      | "init" :: _ => stepUp d ws
+      | "initcmd" :: _ => stepUp d ws
+      | "key" :: _ => stepUp d ws
+      | ["len", _] => stepUp d ws
+      | ["ls"] => stepUp d ws
+      | _ => (d, "down")
+
 /-- Model search (used only when a proof obligation broke): small histories on which the regenerated
 model contradicts a clause; printed as harness op lines and replayed on the real code. -/
 def searchCandidates : List String :=
@@ -208,6 +276,14 @@ def searchCandidates : List String :=
   let c3 := if !Gen.Store.scanDropsOversized then [] else
     ["init 4 2 1 100", "key 1 @", "key 2 @", "key 3 @", "put 1 1299 c", "put 2 1254 c", "put 3 1251 c",
      "run 1", "run 2", "run 3", "deliver 1", "deliver 2", "deliver 3", "crash", "get 1", "get 2", "get 3", "addrs"]
-  c1 ++ c2 ++ c3
+  -- 4. the start-up step rewrites the version file outside the mismatch branch (or writes before it wipes): a start with
+  -- the node's own id interrupted at its first file write, then a completed start — every completed record must survive
+  let c4 := if Gen.Startup.versionWrittenOnlyOnMismatch && Gen.Startup.wipeBeforeVersionWrite then [] else
+    ["init 4 2 1", "key 1 @", "key 2 @", "start 1", "put 1 3 c", "run 2", "deliver 2", "put 2 7 n7", "run 3", "deliver 3",
+     "start 1 interrupt", "vfile", "ls", "start 1", "get 1", "get 2", "addrs", "ls", "vfile"]
+  -- 5. the metrics flush is a spawned task again: two payments, flushes completing out of order, stop, restart
+  let c5 := if Gen.Store.flushSynchronous then [] else
+    ["init 4 2 1", "key 1 @", "run 0", "payment", "payment", "run 2", "run 1", "pending", "metrics 1", "crash", "metrics 1"]
+  c1 ++ c2 ++ c3 ++ c4 ++ c5
 
 end SafeNet.Driver.Store
